@@ -413,6 +413,8 @@ type Interp struct {
 	OpaqueArgs func(fn *ssa.Function) bool
 	// OpaqueType restricts which objects are forgotten (nil = all)
 	OpaqueType func(t types.Type) bool
+	// NNField: struct fields that are never nil by construction (invariant of the analysed package)
+	NNField func(structType types.Type, field string) bool
 	// HavocKeep: symbolic locations an opaque call is assumed not to modify (frame condition)
 	HavocKeep func(key string) bool
 	MaxDepth   int // max inlining depth
@@ -968,7 +970,14 @@ func (in *Interp) instrs(st *State, b, pred *ssa.BasicBlock, idx int, k kont) {
 			x := in.val(st, ins.X)
 			switch ins.Op {
 			case token.MUL:
-				in.set(st, ins, in.load(st, x, ins.Type(), ins.Pos()))
+				v := in.load(st, x, ins.Type(), ins.Pos())
+				if sy, ok := v.(Sym); ok && !sy.NN && in.NNField != nil {
+					if fa, ok := ins.X.(*ssa.FieldAddr); ok && in.NNField(fa.X.Type(), fieldName(fa.X.Type(), fa.Field)) {
+						sy.NN = true
+						v = sy
+					}
+				}
+				in.set(st, ins, v)
 			case token.NOT:
 				if bv, ok := asBool(x); ok {
 					in.set(st, ins, mkBool(!bv))
